@@ -48,6 +48,23 @@ def gasOp (args : List String) : Option String :=
     let te ← listOf flt
     pure (fOutcome (fList fF) (g.profile n pr te))) args
 
+/-- `c10.gasauto optMs optAlpha optBeta optGamma optA optB optG optAA barFactor pressure temperature` → outcome list:
+    `PowerGas` with optional constructor arguments and the tuple of `check_known` -/
+def gasAutoOp (args : List String) : Option String :=
+  run (do
+    let ms ← optOf flt
+    let a ← optOf flt
+    let b ← optOf flt
+    let g ← optOf flt
+    let ka ← optOf flt
+    let kb ← optOf flt
+    let kg ← optOf flt
+    let kA ← optOf flt
+    let bf ← flt
+    let pr ← listOf flt
+    let te ← listOf flt
+    pure (fOutcome (fList fF) (powerGasAuto ms a b g (ka, kb, kg, kA) bf pr te))) args
+
 /-- `c10.mix nFill ratios traces nlayers` → outcome rows -/
 def mixOp (args : List String) : Option String :=
   run (do
@@ -110,7 +127,7 @@ def weightOp (args : List String) : Option String :=
     pure (fList (fOpt fF) (formulas.map (molecularWeight table amu)))) args
 
 def ops : List Op :=
-  [("c10.gas", gasOp), ("c10.mix", mixOp), ("c10.chem", chemOp), ("c10.split", splitOp),
+  [("c10.gas", gasOp), ("c10.gasauto", gasAutoOp), ("c10.mix", mixOp), ("c10.chem", chemOp), ("c10.split", splitOp),
    ("c10.lookup", lookupOp), ("c10.rows", rowsOp), ("c10.weight", weightOp)]
 
 end Taurex.Ops.C10
